@@ -14,7 +14,7 @@ struct Col {
 	append_only: bool,
 }
 
-const COLS: [Col; 7] = [
+const COLS: [Col; 8] = [
 	Col { btree: false, multitree: false, rc: false, append_only: false },
 	Col { btree: false, multitree: false, rc: true, append_only: false },
 	Col { btree: true, multitree: false, rc: false, append_only: false },
@@ -23,6 +23,8 @@ const COLS: [Col; 7] = [
 	Col { btree: false, multitree: true, rc: false, append_only: false },
 	// btree-indexed column that also carries the multitree flag: takes the btree path
 	Col { btree: true, multitree: true, rc: false, append_only: false },
+	// plain hash column with append_only (never ref_counted)
+	Col { btree: false, multitree: false, rc: false, append_only: true },
 ];
 
 fn options(path: &Path) -> Options {
